@@ -2,6 +2,7 @@ import Labella.Driver.Parse
 import Labella.Driver.TextCmd
 import Labella.Model.Render
 import Labella.Model.CalSpec
+import Labella.Model.Process
 /-! driver commands for the exported geometry (C07, C08, C09) -/
 namespace Labella.Driver
 open Labella Labella.Parse Labella.Render
@@ -157,6 +158,31 @@ def sizeCmd (f : List String) : Option String :=
     let sizes := boxes.length == items.length && (items.zip boxes).all (fun p => (p.2.w, p.2.h) == expect p.1)
     let verbatim := texts.all (fun p => p.1 == p.2)
     some s!"size sizes={okR sizes} texts={okR verbatim} n={items.length}"
+  | _ => none
+
+end Labella.Driver
+
+namespace Labella.Driver
+open Labella.Process
+
+def parsePOp (s : String) : Option POp :=
+  match s.splitOn ":" with
+  | ["c", i, a, b, d] => do some (.construct (← Labella.Parse.parseNat i) ⟨a, b, d⟩)
+  | ["e", i] => do some (.export (← Labella.Parse.parseNat i))
+  | _ => none
+
+/-- `proc|ops|observations` : observations of the exports (`d0:d1:dir`) against the isolated-instances model -/
+def procCmd (f : List String) : Option String :=
+  match f with
+  | [ops, obs] => do
+    let ops ← Labella.Parse.parseList ";" parsePOp ops
+    let obs ← Labella.Parse.parseList ";" (fun s => match s.splitOn ":" with
+      | [a, b, d] => some (some (⟨a, b, d⟩ : Args)) | _ => none) obs
+    let m := outputs false PState.init ops
+    let same := m == obs
+    let mOK := m == expected [] ops
+    let legacy := outputs true PState.init ops == expected [] ops
+    some s!"proc same={okR same} model={okR mOK} legacyWouldBreak={if legacy then 0 else 1} exports={obs.length}"
   | _ => none
 
 end Labella.Driver
